@@ -27,7 +27,17 @@ def _triangle(a2, b2, c2):
     return abs(a2 - b2) <= c2 <= a2 + b2 and (a2 + b2 + c2) % 2 == 0
 
 
-def synth_spec(rng: random.Random, *, nfs=None, formalism=None, helset=None, maxspin2=4, ntop=None, name_by=None):
+def _balanced(t):
+    """some node has two children that both decay further (e.g. (01)(23))"""
+    fin = set(t.outgoing_edge_ids)
+    for n in t.nodes:
+        kids = [i for i, e in t.edges.items() if e.originating_node_id == n]
+        if len(kids) == 2 and not (set(kids) & fin):
+            return True
+    return False
+
+
+def synth_spec(rng: random.Random, *, nfs=None, formalism=None, helset=None, maxspin2=4, ntop=None, name_by=None, shape=None):
     """One random synthetic reaction spec (see ampl.make_reaction).  With ntop = 2 the reaction has two
     decay topologies over the same final state; intermediate states are named after their attached
     final-state set, so the same resonance (sub-decay) can occur below different parents."""
@@ -38,6 +48,8 @@ def synth_spec(rng: random.Random, *, nfs=None, formalism=None, helset=None, max
         ntop = 2 if (nfs >= 3 and rng.random() < 0.25) else 1
     pool = []
     for can in topo.canonical(nfs):
+        if shape == "balanced" and not _balanced(can):
+            continue
         pool += list(topo.variants(can, limit=12, rng=rng, intermediates=False))
     rng.shuffle(pool)
     tops, seen = [], set()
